@@ -351,6 +351,18 @@ class UnionAlternative(SerializationMethod):
 
 
 @dataclass
+class AbstractCollectionAlternative(UnionAlternative):
+    """Alternative whose class is an abstract collection (Sequence, Collection):
+    str and bytes are instances of them, but they are not collections for apischema"""
+
+    def serialize(self, obj: Any, path: Union[int, str, None] = None) -> Any:
+        if isinstance(obj, (str, bytes)):
+            # caught by UnionMethod, which goes on with the next alternatives
+            raise TypeCheckError(f"Expected {self.cls}, found {obj.__class__}", [])
+        return super().serialize(obj, path)
+
+
+@dataclass
 class DiscriminatedAlternative(UnionAlternative):
     alias: str
     key: str
